@@ -702,3 +702,88 @@ func workspaceCell(r *esp.Rule, idx int) {
 		return nil
 	}
 }
+
+// recordBoolCells makes the boolean fields of the unexported struct types of one package tracked cells of an ESP
+// rule (flags base, base+1, … in order of first appearance): a decision computed first and applied later
+// (update.setMeasurement) is followed from the store in the computing function to the test in the applying one.
+// It returns the predicate "this instruction stores such a field", for the rule's relevant set. One cell per field
+// for all records of the type: the rules that use it look at one derivation at a time.
+func recordBoolCells(c *Ctx, r *esp.Rule, base int, rel string) func(ssa.Instruction) bool {
+	idx := map[flow.FieldKey]int{}
+	var types_ []types.Type
+	cellOf := func(fa *ssa.FieldAddr) (int, bool) {
+		pt, ok := fa.X.Type().Underlying().(*types.Pointer)
+		if !ok {
+			return 0, false
+		}
+		n, ok := pt.Elem().(*types.Named)
+		if !ok || n.Obj().Pkg() == nil || n.Obj().Pkg().Path() != repoPath(rel) || n.Obj().Exported() {
+			return 0, false
+		}
+		st, ok := n.Underlying().(*types.Struct)
+		if !ok || fa.Field >= st.NumFields() || st.Field(fa.Field).Type().String() != "bool" {
+			return 0, false
+		}
+		k := flow.StructFieldKey(fa.X.Type(), fa.Field)
+		i, ok := idx[k]
+		if !ok {
+			if base+len(idx) > 14 {
+				return 0, false
+			}
+			i = base + len(idx)
+			idx[k] = i
+			types_ = append(types_, n)
+		}
+		return i, true
+	}
+	// assign indices deterministically: scan the package once
+	for _, f := range c.P.RepoFunctions() {
+		if load.RelPkg(f) != rel || c.isTestFunc(f) {
+			continue
+		}
+		for _, b := range f.Blocks {
+			for _, in := range b.Instrs {
+				if fa, ok := in.(*ssa.FieldAddr); ok {
+					cellOf(fa)
+				}
+			}
+		}
+	}
+	prevFlag := r.Flag
+	r.Flag = func(v ssa.Value) (int, bool) {
+		if u, ok := v.(*ssa.UnOp); ok && u.Op == token.MUL {
+			if fa, ok := u.X.(*ssa.FieldAddr); ok {
+				if i, ok := cellOf(fa); ok {
+					return i, true
+				}
+			}
+		}
+		if prevFlag != nil {
+			return prevFlag(v)
+		}
+		return 0, false
+	}
+	r.FieldFlag = cellOf
+	r.AllocFlags = func(t types.Type) []int {
+		var out []int
+		for k, i := range idx {
+			if k.Struct == types.TypeString(t, nil) {
+				out = append(out, i)
+			}
+		}
+		sort.Ints(out)
+		return out
+	}
+	return func(in ssa.Instruction) bool {
+		st, ok := in.(*ssa.Store)
+		if !ok {
+			return false
+		}
+		fa, ok := st.Addr.(*ssa.FieldAddr)
+		if !ok {
+			return false
+		}
+		_, ok = cellOf(fa)
+		return ok
+	}
+}
